@@ -3,6 +3,7 @@
 package c02
 
 import (
+	"bytes"
 	"context"
 	"encoding/json"
 	"errors"
@@ -211,7 +212,10 @@ func bodyFaults(c *fw.Ctx) {
 					continue
 				}
 				for _, k := range offsets {
-					for _, ek := range []string{"unexpected-eof", "other", "context-canceled", "context-canceled-body-healthy"} {
+					for _, ek := range []string{"unexpected-eof", "other", "context-canceled", "context-canceled-body-healthy", "max-bytes"} {
+						if ek == "max-bytes" && k >= n {
+							continue // the limit is not exceeded
+						}
 						idx++
 						if !c.Mine(idx) {
 							continue
@@ -272,6 +276,11 @@ func execFault(c *fw.Ctx, e *fsx.Env, fc faultCase) {
 		}
 	}
 	sreq.Body = &faultReader{data: data, k: fc.FailAt, err: ferr, onFail: onFail, goOn: goOn}
+	if fc.ErrKind == "max-bytes" {
+		// the embedding server limits uploads the net/http way: the body
+		// fails with *http.MaxBytesError once FailAt bytes have been read
+		sreq.Body = http.MaxBytesReader(nil, ioutil.NopCloser(bytes.NewReader(data)), int64(fc.FailAt))
+	}
 	sreq.ContentLength = int64(fc.Len)
 	if fc.Cond == "if-match-current" {
 		if fi, _ := webdav.LocalFileSystem(e.Root).Stat(context.Background(), "/t"); fi != nil {
